@@ -44,6 +44,7 @@ type config struct {
 	Accounts int    `json:"accounts"`
 	PartSize int    `json:"part_size"`
 	Powers   []int64 `json:"validator_powers,omitempty"` // C14: several validators held by the harness
+	BlockSize int    `json:"block_size,omitempty"`       // C19: the pool bounds are ten times this
 }
 
 var runtimes = [][]byte{
@@ -81,6 +82,9 @@ func generate(seed uint64, prop string) simrt.Case {
 	}
 	var acts []simrt.Action
 	ntx := 0
+	if prop == "C19" {
+		return generatePool(r, cfg)
+	}
 	for b := 0; b < nblocks; b++ {
 		// replica histories before this block
 		for rp := 1; rp < cfg.Replicas; rp++ {
@@ -185,6 +189,8 @@ type world struct {
 	adminLog       []adminRec
 	pendingTargets map[string]bool
 	pendingRemoved int64
+	pm             *poolModel // C19
+	doBlock        func(txs []*txInfo)
 	queried        map[int]bool // replicas at which an admin request was replayed as a query since the last block
 }
 
@@ -494,6 +500,12 @@ func (w *world) fingerprint(inc *fullnode.Inc) string {
 func execute(t *testing.T, prop string, c simrt.Case) (out simrt.Outcome) {
 	out = simrt.Outcome{Faults: map[string]int{}, Probes: map[string]int{}, Evals: map[string]int{}}
 	var lg simrt.Log
+	lg.Keep = os.Getenv("VERIF_DUMPLOG") != ""
+	defer func() {
+		if lg.Keep {
+			fmt.Println(strings.Join(lg.Text, "\n"))
+		}
+	}()
 	rp := simrt.Bubble(t, func() { run(t, prop, c, &out, &lg) })
 	if rp != nil {
 		out.Violations = append(out.Violations, simrt.Violation{Property: prop, Oracle: "harness-panic", Key: "root", Msg: fmt.Sprint(rp)})
@@ -525,7 +537,7 @@ func run(t *testing.T, prop string, c simrt.Case, out *simrt.Outcome, lg *simrt.
 	w.initValidators()
 	w.pendingTargets = map[string]bool{}
 	gen := &types.GenesisDoc{GenesisTime: w.start, ChainID: fullnode.ChainID, Validators: w.genesisValidators()}
-	w.env = &fullnode.Env{Reg: w.reg, Genesis: gen, BlockPartSize: cfg.PartSize, Plugins: "adminOp"}
+	w.env = &fullnode.Env{Reg: w.reg, Genesis: gen, BlockPartSize: cfg.PartSize, Plugins: "adminOp", BlockSize: cfg.BlockSize}
 	for i := 0; i < cfg.Accounts; i++ {
 		h := sha256.Sum256([]byte(fmt.Sprintf("execsim-acct-%d-%d", cfg.Seed, i)))
 		k, err := ethcrypto.ToECDSA(h[:])
@@ -545,8 +557,250 @@ func run(t *testing.T, prop string, c simrt.Case, out *simrt.Outcome, lg *simrt.
 			return
 		}
 	}
+	if prop == "C19" {
+		w.poolInit()
+	}
 	var pending []*txInfo
 	finger := map[int64]string{}
+	doBlock := func(txs []*txInfo) {
+		blk, _ := w.buildBlock(txs)
+		h := blk.Height
+		lg.Add("block %d txs %d", h, len(txs))
+		// reference model verdicts, in block order
+		type verdict struct {
+			valid, certain bool
+		}
+		verdicts := make([]verdict, len(txs))
+		pre := map[common.Address]uint64{}
+		for k, v := range w.nonces {
+			pre[k] = v
+		}
+		for i, ti := range txs {
+			v, cert := w.expected(ti)
+			verdicts[i] = verdict{v, cert}
+			if os.Getenv("VERIF_DEBUG_SEED") != "" {
+				fmt.Printf("  block %d tx %d kind %s sender %d nonce %d -> model valid=%v certain=%v\n", h, i, ti.kind, ti.sender, ti.nonce, v, cert)
+			}
+			if v && cert {
+				acct := w.accts[ti.sender%len(w.accts)]
+				k := baseKind(ti.kind)
+				if k == "create" {
+					w.contracts = append(w.contracts, ethcrypto.CreateAddress(acct.addr, w.nonces[acct.addr]))
+				}
+				w.nonces[acct.addr]++
+				if ti.kvOK {
+					w.kvRef[string(ti.kv.Key)] = append(w.kvRef[string(ti.kv.Key)], string(ti.kv.Value))
+				}
+			}
+		}
+		// ---- C14 reference: which of the requests carried by valid transactions are authorised
+		preVals := map[string]int64{}
+		for k, v := range w.valRef {
+			preVals[k] = v
+		}
+		var authorised []*types.ValidatorAttr
+		nreq := 0
+		{
+			nn := map[common.Address]uint64{}
+			for k, v := range pre {
+				nn[k] = v
+			}
+			for i, ti := range txs {
+				if !(verdicts[i].valid && verdicts[i].certain) {
+					continue
+				}
+				acct := w.accts[ti.sender%len(w.accts)]
+				txNonce := nn[acct.addr]
+				nn[acct.addr]++
+				if ti.admin == nil {
+					continue
+				}
+				nreq++
+				at, ok, why := w.refAuthorised(ti.admin.cmd, ti.admin.from, acct.addr, txNonce)
+				out.Probes["admin:"+ti.admin.variant]++
+				if ok {
+					authorised = append(authorised, at)
+					out.Probes["admin-authorised"]++
+				} else {
+					out.Probes["admin-refused:"+strings.TrimSpace(strings.Map(func(r rune) rune {
+						if r >= '0' && r <= '9' {
+							return -1
+						}
+						return r
+					}, why))]++
+				}
+				w.adminLog = append(w.adminLog, adminRec{cmd: ti.admin.cmd, sender: acct.addr, accepted: ok})
+				lg.Add("admin %s authorised=%v %s", ti.admin.variant, ok, why)
+				if os.Getenv("VERIF_DEBUG_SEED") != "" {
+					fmt.Printf("  block %d tx %d admin %s authorised=%v %s\n", h, i, ti.admin.variant, ok, why)
+				}
+			}
+		}
+		w.refApply(preVals, authorised)
+		w.pendingTargets, w.pendingRemoved = map[string]bool{}, 0
+		queried := w.queried
+		w.queried = nil
+		w.sent = append(w.sent, txs...)
+		drop := map[int]bool{}
+		for i := range txs {
+			if verdicts[i].certain && !verdicts[i].valid {
+				drop[i] = true
+			}
+		}
+		w.certainInvalid = append(w.certainInvalid, drop)
+		// every replica executes the block
+		for i, nd := range w.reps {
+			if !nd.Inc.Alive() {
+				w.startReplica(nd)
+			}
+			if os.Getenv("VERIF_DEBUG_SEED") != "" {
+				nd.Inc.Life.LogWrites(true)
+			}
+			if w.armed[i] > 0 {
+				nd.Inc.Life.ArmCrash(int(w.armed[i]))
+				w.armed[i] = 0
+				out.Faults["crash_armed_in_apply"]++
+			}
+			ok := w.apply(nd, h)
+			inc := nd.Inc
+			if !ok {
+				if inc.PanicSite != "" {
+					w.viol("C09", "node-panic-while-executing", fullnode.PanicKey(inc.PanicVal, inc.PanicStk), "replica %d panicked on goroutine %s while executing block %d: %.300s", nd.ID, inc.PanicSite, h, inc.PanicVal)
+					break
+				}
+				if inc.Life.Dead() {
+					// crashed at the armed write: restart, recover, and finish the block if recovery did not
+					out.Faults["crash_fired_in_apply"]++
+					inc.Quiesce()
+					if os.Getenv("VERIF_DEBUG_SEED") != "" {
+						fmt.Printf("replica %d crashed in block %d: %s\n  writes before: %v\n", nd.ID, h, inc.Life.Reason, inc.Life.WriteLog())
+					}
+					if !w.startReplica(nd) {
+						break
+					}
+					if !w.apply(nd, h) && nd.Inc.PanicSite != "" {
+						w.viol("C09", "node-panic-while-executing", fullnode.PanicKey(nd.Inc.PanicVal, nd.Inc.PanicStk), "replica %d panicked after recovery while executing block %d: %.300s", nd.ID, h, nd.Inc.PanicVal)
+						break
+					}
+				} else {
+					if os.Getenv("VERIF_DUMPSTACKS") != "" {
+						buf := make([]byte, 1<<20)
+						n := runtime.Stack(buf, true)
+						os.Stderr.Write(buf[:n])
+					}
+					w.viol("C12", "apply-blocked", "wedge", "replica %d neither finished nor died executing block %d", nd.ID, h)
+					break
+				}
+			}
+			nd.Inc.Life.Disarm()
+		}
+		if len(out.Violations) > 0 {
+			return
+		}
+		if w.pm != nil {
+			w.poolAfterBlock(txs)
+			w.poolReap(-1, "after-block")
+			if len(out.Violations) > 0 {
+				return
+			}
+		}
+		// ---- C14: the validator set for the next height, on every replica, is the reference set
+		if prop == "C14" || nreq > 0 {
+			// replicas that were not queried first: a defect in request handling shows there
+			order := append([]*fullnode.Node{}, w.reps...)
+			sort.SliceStable(order, func(i, j int) bool { return !queried[order[i].ID] && queried[order[j].ID] })
+			for _, nd := range order {
+				out.Evals["C14.validator-set"]++
+				got := valsOf(nd.Inc.State.Validators)
+				if sameVals(got, w.valRef) {
+					continue
+				}
+				if queried[nd.ID] {
+					w.viol("C14", "query-changed-the-set", "query-replay", "after block %d replica %d has validators %s, the reference %s: an accepted request replayed as a read-only query at one replica took effect there", h, nd.ID, w.showVals(got), w.showVals(w.valRef))
+				} else if len(authorised) == 0 && sameVals(w.valRef, preVals) {
+					w.viol("C14", "unauthorised-request-changed-the-set", w.blame(txs, got), "after block %d (no authorised request in it) replica %d has validators %s, the set was %s", h, nd.ID, w.showVals(got), w.showVals(preVals))
+				} else {
+					w.viol("C14", "validator-set-differs-from-reference", w.blame(txs, got), "after block %d replica %d has validators %s; applying exactly the authorised requests gives %s (before the block %s)", h, nd.ID, w.showVals(got), w.showVals(w.valRef), w.showVals(preVals))
+				}
+				break
+			}
+		}
+		if len(out.Violations) > 0 {
+			return
+		}
+		// ---- C05: all replicas agree with the reference replica
+		ref := w.reps[0].Inc
+		w.refApp = append(w.refApp, append([]byte{}, ref.State.AppHash...))
+		w.refRcpt = append(w.refRcpt, append([]byte{}, ref.State.ReceiptsHash...))
+		out.Evals["C05.hashes"]++
+		for _, nd := range w.reps[1:] {
+			st := nd.Inc.State
+			if st.LastBlockHeight != h {
+				w.viol("C05", "replica-behind", "height", "replica %d is at height %d after block %d", nd.ID, st.LastBlockHeight, h)
+				continue
+			}
+			if !bytes.Equal(st.AppHash, ref.State.AppHash) {
+				w.viol("C05", "apphash-differs", "apphash", "after block %d replica %d (incarnation %d, %d verifier goroutines) has application hash %X, the reference replica %X", h, nd.ID, nd.Inc.Gen, w.routines[nd.ID], st.AppHash[:4], ref.State.AppHash[:4])
+			}
+			if !bytes.Equal(st.ReceiptsHash, ref.State.ReceiptsHash) {
+				w.viol("C05", "receiptshash-differs", "receipts", "after block %d replica %d (incarnation %d) has receipts hash %X, the reference replica (incarnation %d) %X", h, nd.ID, nd.Inc.Gen, fp(st.ReceiptsHash), ref.Gen, fp(ref.State.ReceiptsHash))
+			}
+		}
+		out.Evals["C05.queries"]++
+		f0 := w.fingerprint(ref)
+		finger[h] = f0
+		for _, nd := range w.reps[1:] {
+			if f := w.fingerprint(nd.Inc); f != f0 {
+				w.viol("C05", "query-results-differ", "queries", "after block %d replica %d answers the fixed query set differently from the reference replica", h, nd.ID)
+			}
+		}
+		// ---- C09: verdicts against the reference nonce model (on the reference replica)
+		for _, acct := range w.accts {
+			out.Evals["C09.nonce"]++
+			got := w.nonceOf(ref, acct.addr)
+			want := w.nonces[acct.addr]
+			uncertain := false
+			for i, ti := range txs {
+				if !verdicts[i].certain && ti.sender >= 0 && w.accts[ti.sender%len(w.accts)].addr == acct.addr {
+					uncertain = true
+				}
+			}
+			if uncertain {
+				// a transaction judged only differentially may or may not have counted
+				if got == want+1 {
+					w.nonces[acct.addr] = got
+				}
+				continue
+			}
+			if got != want {
+				w.viol("C09", "nonce-model-mismatch", "nonce", "after block %d account %d has nonce %d; applying exactly the transactions whose nonce matched gives %d (was %d before the block)", h, indexOf(w.accts, acct), got, want, pre[acct.addr])
+			}
+		}
+		for i, ti := range txs {
+			if !verdicts[i].certain {
+				continue
+			}
+			out.Evals["C09.receipt"]++
+			code, _, _ := w.query(ref, rtypes.QueryType_Receipt, txHash(ti.raw))
+			has := code == types.CodeType_OK
+			k := baseKind(ti.kind)
+			isKV := k == "kv" || k == "kv-bad"
+			if verdicts[i].valid && !isKV && !has {
+				w.viol("C09", "valid-tx-without-receipt", k, "transaction %d of block %d (%s) is valid by the nonce model but has no receipt", i, h, ti.kind)
+			}
+			if !verdicts[i].valid && has && !w.validEarlier(ti) {
+				w.viol("C09", "invalid-tx-with-receipt", k, "transaction %d of block %d (%s) is invalid by the nonce model but has a receipt", i, h, ti.kind)
+			}
+		}
+		for key, hist := range w.kvRef {
+			out.Evals["C09.kv"]++
+			_, d, _ := w.query(ref, rtypes.QueryType_Key, []byte(key))
+			if string(d) != hist[len(hist)-1] {
+				w.viol("C09", "kv-value-mismatch", "kv", "key %s holds %q, the last valid key-value transaction wrote %q", key, d, hist[len(hist)-1])
+			}
+		}
+	}
+	w.doBlock = doBlock
 	for _, a := range c.Actions {
 		out.Steps++
 		if len(out.Violations) > 0 {
@@ -557,12 +811,15 @@ func run(t *testing.T, prop string, c simrt.Case, out *simrt.Outcome, lg *simrt.
 			ti := w.mkTx(a)
 			pending = append(pending, ti)
 		case "restart":
-			if a.N > 0 && a.N < len(w.reps) {
+			if (a.N > 0 || w.pm != nil) && a.N < len(w.reps) {
 				nd := w.reps[a.N]
 				nd.Inc.Life.Kill("clean restart")
 				nd.Inc.Quiesce()
 				out.Faults["replica_restart"]++
 				w.startReplica(nd)
+				if w.pm != nil && a.N == 0 {
+					w.poolReset("restart")
+				}
 			}
 		case "crash":
 			if a.N > 0 && a.N < len(w.reps) {
@@ -570,6 +827,25 @@ func run(t *testing.T, prop string, c simrt.Case, out *simrt.Outcome, lg *simrt.
 			}
 		case "adminquery":
 			w.adminQuery(a)
+		case "submit":
+			w.poolSubmit(a)
+			w.poolReap(-1, "after-submit")
+		case "reap":
+			w.poolReap(int(a.A), "probe")
+		case "idle":
+			w.poolAdvance(a.A)
+			w.poolReap(-1, "after-idle")
+		case "flush":
+			if inc := w.reps[0].Inc; inc.Alive() {
+				w.call(inc, "pool-flush", func() { inc.Pool.Flush() })
+				w.poolReset("flush")
+				out.Faults["pool_flush"]++
+			}
+		case "drain":
+			w.poolDrain(func(txs []*txInfo) bool {
+				doBlock(txs)
+				return len(out.Violations) == 0
+			})
 		case "enumerate":
 			w.enumerate(a.A, a.B)
 		case "routines":
@@ -580,235 +856,10 @@ func run(t *testing.T, prop string, c simrt.Case, out *simrt.Outcome, lg *simrt.
 		case "block":
 			txs := pending
 			pending = nil
-			blk, _ := w.buildBlock(txs)
-			h := blk.Height
-			lg.Add("block %d txs %d", h, len(txs))
-			// reference model verdicts, in block order
-			type verdict struct {
-				valid, certain bool
+			if a.S == "pool" {
+				txs = w.poolSelect(a)
 			}
-			verdicts := make([]verdict, len(txs))
-			pre := map[common.Address]uint64{}
-			for k, v := range w.nonces {
-				pre[k] = v
-			}
-			for i, ti := range txs {
-				v, cert := w.expected(ti)
-				verdicts[i] = verdict{v, cert}
-				if os.Getenv("VERIF_DEBUG_SEED") != "" {
-					fmt.Printf("  block %d tx %d kind %s sender %d nonce %d -> model valid=%v certain=%v\n", h, i, ti.kind, ti.sender, ti.nonce, v, cert)
-				}
-				if v && cert {
-					acct := w.accts[ti.sender%len(w.accts)]
-					k := baseKind(ti.kind)
-					if k == "create" {
-						w.contracts = append(w.contracts, ethcrypto.CreateAddress(acct.addr, w.nonces[acct.addr]))
-					}
-					w.nonces[acct.addr]++
-					if ti.kvOK {
-						w.kvRef[string(ti.kv.Key)] = append(w.kvRef[string(ti.kv.Key)], string(ti.kv.Value))
-					}
-				}
-			}
-			// ---- C14 reference: which of the requests carried by valid transactions are authorised
-			preVals := map[string]int64{}
-			for k, v := range w.valRef {
-				preVals[k] = v
-			}
-			var authorised []*types.ValidatorAttr
-			nreq := 0
-			{
-				nn := map[common.Address]uint64{}
-				for k, v := range pre {
-					nn[k] = v
-				}
-				for i, ti := range txs {
-					if !(verdicts[i].valid && verdicts[i].certain) {
-						continue
-					}
-					acct := w.accts[ti.sender%len(w.accts)]
-					txNonce := nn[acct.addr]
-					nn[acct.addr]++
-					if ti.admin == nil {
-						continue
-					}
-					nreq++
-					at, ok, why := w.refAuthorised(ti.admin.cmd, ti.admin.from, acct.addr, txNonce)
-					out.Probes["admin:"+ti.admin.variant]++
-					if ok {
-						authorised = append(authorised, at)
-						out.Probes["admin-authorised"]++
-					} else {
-						out.Probes["admin-refused:"+strings.TrimSpace(strings.Map(func(r rune) rune {
-							if r >= '0' && r <= '9' {
-								return -1
-							}
-							return r
-						}, why))]++
-					}
-					w.adminLog = append(w.adminLog, adminRec{cmd: ti.admin.cmd, sender: acct.addr, accepted: ok})
-					lg.Add("admin %s authorised=%v %s", ti.admin.variant, ok, why)
-					if os.Getenv("VERIF_DEBUG_SEED") != "" {
-						fmt.Printf("  block %d tx %d admin %s authorised=%v %s\n", h, i, ti.admin.variant, ok, why)
-					}
-				}
-			}
-			w.refApply(preVals, authorised)
-			w.pendingTargets, w.pendingRemoved = map[string]bool{}, 0
-			queried := w.queried
-			w.queried = nil
-			w.sent = append(w.sent, txs...)
-			drop := map[int]bool{}
-			for i := range txs {
-				if verdicts[i].certain && !verdicts[i].valid {
-					drop[i] = true
-				}
-			}
-			w.certainInvalid = append(w.certainInvalid, drop)
-			// every replica executes the block
-			for i, nd := range w.reps {
-				if !nd.Inc.Alive() {
-					w.startReplica(nd)
-				}
-				if os.Getenv("VERIF_DEBUG_SEED") != "" {
-					nd.Inc.Life.LogWrites(true)
-				}
-				if w.armed[i] > 0 {
-					nd.Inc.Life.ArmCrash(int(w.armed[i]))
-					w.armed[i] = 0
-					out.Faults["crash_armed_in_apply"]++
-				}
-				ok := w.apply(nd, h)
-				inc := nd.Inc
-				if !ok {
-					if inc.PanicSite != "" {
-						w.viol("C09", "node-panic-while-executing", fullnode.PanicKey(inc.PanicVal, inc.PanicStk), "replica %d panicked on goroutine %s while executing block %d: %.300s", nd.ID, inc.PanicSite, h, inc.PanicVal)
-						break
-					}
-					if inc.Life.Dead() {
-						// crashed at the armed write: restart, recover, and finish the block if recovery did not
-						out.Faults["crash_fired_in_apply"]++
-						inc.Quiesce()
-						if os.Getenv("VERIF_DEBUG_SEED") != "" {
-							fmt.Printf("replica %d crashed in block %d: %s\n  writes before: %v\n", nd.ID, h, inc.Life.Reason, inc.Life.WriteLog())
-						}
-						if !w.startReplica(nd) {
-							break
-						}
-						if !w.apply(nd, h) && nd.Inc.PanicSite != "" {
-							w.viol("C09", "node-panic-while-executing", fullnode.PanicKey(nd.Inc.PanicVal, nd.Inc.PanicStk), "replica %d panicked after recovery while executing block %d: %.300s", nd.ID, h, nd.Inc.PanicVal)
-							break
-						}
-					} else {
-						if os.Getenv("VERIF_DUMPSTACKS") != "" {
-							buf := make([]byte, 1<<20)
-							n := runtime.Stack(buf, true)
-							os.Stderr.Write(buf[:n])
-						}
-						w.viol("C12", "apply-blocked", "wedge", "replica %d neither finished nor died executing block %d", nd.ID, h)
-						break
-					}
-				}
-				nd.Inc.Life.Disarm()
-			}
-			if len(out.Violations) > 0 {
-				break
-			}
-			// ---- C14: the validator set for the next height, on every replica, is the reference set
-			if prop == "C14" || nreq > 0 {
-				// replicas that were not queried first: a defect in request handling shows there
-				order := append([]*fullnode.Node{}, w.reps...)
-				sort.SliceStable(order, func(i, j int) bool { return !queried[order[i].ID] && queried[order[j].ID] })
-				for _, nd := range order {
-					out.Evals["C14.validator-set"]++
-					got := valsOf(nd.Inc.State.Validators)
-					if sameVals(got, w.valRef) {
-						continue
-					}
-					if queried[nd.ID] {
-						w.viol("C14", "query-changed-the-set", "query-replay", "after block %d replica %d has validators %s, the reference %s: an accepted request replayed as a read-only query at one replica took effect there", h, nd.ID, w.showVals(got), w.showVals(w.valRef))
-					} else if len(authorised) == 0 && sameVals(w.valRef, preVals) {
-						w.viol("C14", "unauthorised-request-changed-the-set", w.blame(txs, got), "after block %d (no authorised request in it) replica %d has validators %s, the set was %s", h, nd.ID, w.showVals(got), w.showVals(preVals))
-					} else {
-						w.viol("C14", "validator-set-differs-from-reference", w.blame(txs, got), "after block %d replica %d has validators %s; applying exactly the authorised requests gives %s (before the block %s)", h, nd.ID, w.showVals(got), w.showVals(w.valRef), w.showVals(preVals))
-					}
-					break
-				}
-			}
-			if len(out.Violations) > 0 {
-				break
-			}
-			// ---- C05: all replicas agree with the reference replica
-			ref := w.reps[0].Inc
-			w.refApp = append(w.refApp, append([]byte{}, ref.State.AppHash...))
-			w.refRcpt = append(w.refRcpt, append([]byte{}, ref.State.ReceiptsHash...))
-			out.Evals["C05.hashes"]++
-			for _, nd := range w.reps[1:] {
-				st := nd.Inc.State
-				if st.LastBlockHeight != h {
-					w.viol("C05", "replica-behind", "height", "replica %d is at height %d after block %d", nd.ID, st.LastBlockHeight, h)
-					continue
-				}
-				if !bytes.Equal(st.AppHash, ref.State.AppHash) {
-					w.viol("C05", "apphash-differs", "apphash", "after block %d replica %d (incarnation %d, %d verifier goroutines) has application hash %X, the reference replica %X", h, nd.ID, nd.Inc.Gen, w.routines[nd.ID], st.AppHash[:4], ref.State.AppHash[:4])
-				}
-				if !bytes.Equal(st.ReceiptsHash, ref.State.ReceiptsHash) {
-					w.viol("C05", "receiptshash-differs", "receipts", "after block %d replica %d (incarnation %d) has receipts hash %X, the reference replica (incarnation %d) %X", h, nd.ID, nd.Inc.Gen, fp(st.ReceiptsHash), ref.Gen, fp(ref.State.ReceiptsHash))
-				}
-			}
-			out.Evals["C05.queries"]++
-			f0 := w.fingerprint(ref)
-			finger[h] = f0
-			for _, nd := range w.reps[1:] {
-				if f := w.fingerprint(nd.Inc); f != f0 {
-					w.viol("C05", "query-results-differ", "queries", "after block %d replica %d answers the fixed query set differently from the reference replica", h, nd.ID)
-				}
-			}
-			// ---- C09: verdicts against the reference nonce model (on the reference replica)
-			for _, acct := range w.accts {
-				out.Evals["C09.nonce"]++
-				got := w.nonceOf(ref, acct.addr)
-				want := w.nonces[acct.addr]
-				uncertain := false
-				for i, ti := range txs {
-					if !verdicts[i].certain && ti.sender >= 0 && w.accts[ti.sender%len(w.accts)].addr == acct.addr {
-						uncertain = true
-					}
-				}
-				if uncertain {
-					// a transaction judged only differentially may or may not have counted
-					if got == want+1 {
-						w.nonces[acct.addr] = got
-					}
-					continue
-				}
-				if got != want {
-					w.viol("C09", "nonce-model-mismatch", "nonce", "after block %d account %d has nonce %d; applying exactly the transactions whose nonce matched gives %d (was %d before the block)", h, indexOf(w.accts, acct), got, want, pre[acct.addr])
-				}
-			}
-			for i, ti := range txs {
-				if !verdicts[i].certain {
-					continue
-				}
-				out.Evals["C09.receipt"]++
-				code, _, _ := w.query(ref, rtypes.QueryType_Receipt, txHash(ti.raw))
-				has := code == types.CodeType_OK
-				k := baseKind(ti.kind)
-				isKV := k == "kv" || k == "kv-bad"
-				if verdicts[i].valid && !isKV && !has {
-					w.viol("C09", "valid-tx-without-receipt", k, "transaction %d of block %d (%s) is valid by the nonce model but has no receipt", i, h, ti.kind)
-				}
-				if !verdicts[i].valid && has && !w.validEarlier(ti) {
-					w.viol("C09", "invalid-tx-with-receipt", k, "transaction %d of block %d (%s) is invalid by the nonce model but has a receipt", i, h, ti.kind)
-				}
-			}
-			for key, hist := range w.kvRef {
-				out.Evals["C09.kv"]++
-				_, d, _ := w.query(ref, rtypes.QueryType_Key, []byte(key))
-				if string(d) != hist[len(hist)-1] {
-					w.viol("C09", "kv-value-mismatch", "kv", "key %s holds %q, the last valid key-value transaction wrote %q", key, d, hist[len(hist)-1])
-				}
-			}
+			doBlock(txs)
 		}
 	}
 	// ---- C09 differential twin: the chain without its invalid transactions gives the same state
